@@ -1,4 +1,4 @@
-SERVED = ["C01", "C02", "C03", "C05", "C06", "C07", "C08", "C09", "C10", "C12", "C15", "C13", "C14", "C16", "C17", "C18", "C19", "C20"]
+SERVED = ["C01", "C02", "C03", "C04", "C05", "C06", "C07", "C08", "C09", "C10", "C12", "C15", "C13", "C14", "C16", "C17", "C18", "C19", "C20"]
 HOOKS = {
     "guard": "PSYCHEC_VERIF",
     "enable": "harness/Makefile compiles /repo's sources with -DPSYCHEC_VERIF into /verif/.cache/build-<flavour>/; "
@@ -134,6 +134,19 @@ CHECKS = {
         "note": "Trusted: Coq kernel; hand-written model C02Model.v (immutable terms: the in-place rewriting and object ownership of the real code are outside it and were where two of the repaired defects lived); "
                 "extraction; harness walk; sanitizers. Print Assumptions: closed under the global context.",
         "technique": "Coq termination proof with an explicit lexicographic measure for the typedef resolver over arbitrary (cyclic) declaration graphs + correspondence; sanitizer exploration with a full API walk for memory safety",
+    },
+    "C04": {
+        "text": "PARTIAL: the property quantifies over every valid C11 program and thousands of lines of productions; it is decided by differential testing against gcc: grammar-directed units (all declaration, "
+                "declarator, initialiser, statement and expression forms; one in four with GNU attributes/asm/typeof/statement expressions/K&R definitions) that gcc -std=c11|gnu11 -fsyntax-only accepts must "
+                "parse to completion with no Error diagnostic, as written and again with their typedef declarations removed from view; failures are shrunk line by line.  What is a theorem is the one place where "
+                "the parser decides WITHOUT a symbol table whether an identifier is a typedef name, the model of Parser::guessRoleOfIdentifier (tied to the compiled function at every identifier of generated and "
+                "corpus texts): C04_guess_total_in_bounds — on every token vector ending in EndOfFile it answers and reads only inside the vector; C04_identifier_then_identifier and "
+                "C04_identifier_then_specifier_or_star — `T x`, `T *`, `T const` ... are typedef-name readings whatever surrounds them; kernel-evaluated shapes of the parenthesis heuristic, and "
+                "C04_parenthesised_array_declarator_refuted (the known finding).",
+        "design_ref": "DESIGN.md section 6, C04",
+        "note": "Trusted: gcc 12 as oracle of validity; generator gen/cgen.py; Coq kernel; hand-written model C04Model.v; extraction; harness. A machine-checked proof cannot reach the statement itself here (no formal "
+                "C11 grammar/semantics of validity is available in the sandbox and the productions are not modelled); this is stated in DESIGN.md. Print Assumptions: closed under the global context.",
+        "technique": "Coq proofs about the model of the typedef-name guess (totality, bounds, unconditional cases) + differential testing against gcc on generated programs",
     },
     "C05": {
         "text": "PARTIAL. Theorem C05_punctuator_maximal_munch, over the punctuator cases of Lexer::yylex_CORE as regenerated from Lexer.cpp on this run (decision statements: kind assignment, yyinput(), "
